@@ -15,10 +15,13 @@ points is never exhausted, so the answer is a function of the stream alone.
 PROVED here (all inputs): never out of fuel; `inflateRaw (storedChunks cs last ++ tail) = (cs.flatten
 ++ last, tail)` for EVERY segmentation into stored blocks of at most 65535 bytes (so in particular
 for `storedBlocks bs`), and `gunzip (gzipStored bs) = bs` through header, CRC-32 and ISIZE.
-TESTED only (not proved): the Huffman and LZ77 paths — `decide` vectors below (fixed block with an
-overlapping back-reference, dynamic block, the canonical-code walk against RFC 1951's explicit code
-assignment on the fixed table), and the L1 check, which runs `gunzip` on every output of the real
-gzip codec next to Go's stdlib reader.
+PROVED in `InflateFixed.lean`: `inflate (fixedLiterals bs) = bs` — the literal path of the Huffman
+decoder on the fixed table (code bit order, canonical walk, symbol loop, end-of-block).
+TESTED only (not proved): length/distance symbols (LZ77 matches, overlapping ones included) and
+dynamic-table headers — `decide` vectors in `InflateTests.lean` (fixed block with an overlapping
+back-reference, dynamic block, the canonical-code walk against RFC 1951's explicit code assignment
+on the fixed tables), and the L1 check, which runs `gunzip` on every output of the real gzip codec
+next to Go's stdlib reader.
 
 Policy where RFC 1951 is silent: an over-subscribed set of code lengths is rejected (it is not a
 prefix code); an incomplete one is accepted and a bit pattern without symbol is an error where it
